@@ -87,6 +87,7 @@ def run(rep, tier="quick", replay=None, evidence_dir=None, collect_only=False):
     prog = Program(factsmod.extract())
     rep.rule("C05.R1", "every allocation size in the reading set is CONST | LEN | LIMIT | value of a limit guard (params checked at callers)")
     rep.rule("C05.R2", "declared counts stored in counter fields / loop bounds pass a limit guard")
+    rep.rule("C05.R3", "no overflow / division assert in the reading set has an operand derived from the input, except the listed discharged instances")
     rep.rule("C05.R4", "limit guards: Ok only when value <= limit; checked_mul for element counts")
     rep.rule("C05.R5", "closed inventory of explicit panic sites in the reading set")
     rf, roots, rset = reading_set(prog)
